@@ -56,13 +56,12 @@ def rule_payload_btc(ctx):
         a2 = peel(a, calls=False)
         strict = None
         if a2[0] == 'call' and mir.method_name(a2[1]) in ('unwrap_or_default', 'unwrap_or_else', 'unwrap_or'):
-            inner = peel(a2[2][0], calls=False)
-            # Result::map with a value-preserving conversion function item (str::to_owned, String::from, ..)
-            if inner[0] == 'call' and mir.method_name(inner[1]) == 'map' and len(inner[2]) == 2 and peel(inner[2][1])[0] == 'fn' and \
-                    mir.method_name(peel(inner[2][1])[1]) in ('to_owned', 'to_string', 'from', 'into', 'into_owned'):
-                inner = peel(inner[2][0], calls=False)
-            if inner[0] == 'call' and mir.method_name(inner[1]) in ('from_utf8', 'from_utf8_lossy', 'from_utf8_unchecked'):
-                strict = (mir.method_name(a2[1]), mir.method_name(inner[1]), canon(inner[2][0]))
+            # the decoding call, wherever value-preserving wrappers (map(str::to_owned), an expanded map, ..) put it
+            dec_calls = list(mir.calls_in(a2[2][0], lambda nme: mir.method_name(nme) in ('from_utf8', 'from_utf8_lossy', 'from_utf8_unchecked')))
+            kinds = set(mir.method_name(c[1]) for c in dec_calls)
+            srcs = set(canon(c[2][0]) for c in dec_calls if c[2])
+            if len(kinds) == 1 and len(srcs) == 1:
+                strict = (mir.method_name(a2[1]), list(kinds)[0], list(srcs)[0])
         if not strict:
             ctx.unrecognised('payload_btc', 'payload-shape', (b, i), 'payload = %s' % c)
             continue
